@@ -19,6 +19,8 @@ def run(tier, seed):
     per = 4000000 if tier == "thorough" else 400000
     c2, s2, n2 = core.run_sharded(exe, "c10stub", seed, tier, core.NCPU if tier == "thorough" else 8, extra={"n": per}, timeout=3000)
     r.add_cases(c1, "native/gate")
+    core.also_librel(r, tier, True, lambda exe2: core.run_sharded(exe2, "c10gate", seed, tier, 1, timeout=900))
+    core.also_librel(r, tier, True, lambda exe2: core.run_sharded(exe2, "c10stub", seed, tier, core.NCPU if tier == "thorough" else 8, extra={"n": per}, timeout=3000))
     r.add_cases(c2, "native/stub")
     r.notes += n1 + n2
     r.observe("gate", core.sum_dicts(s1))
@@ -33,7 +35,7 @@ def run(tier, seed):
 def replay(path):
     import subprocess
     rp = core.load_replay(path)
-    exe = core.build_native()
+    exe = core.build_native(libopt="librel" in str(rp.get("engine", "")))
     scn = "c10gate" if rp.get("engine", "").endswith("gate") else "c10stub"
     p = subprocess.run([exe, scn, "--seed", str(rp["seed"]), "--tier", rp["tier"], "--only", str(rp["case_index"]), "--n", str(rp.get("args", {}).get("n", 40000))], stdout=subprocess.PIPE, text=True)
     print(p.stdout[-2000:])
